@@ -22,12 +22,13 @@ def histories(run: Run) -> list[dict]:
     rng = common.rng_for(run.seed, "c04")
     hs: list[dict] = list(S.CORPUS_C04)
     n_exact, n_scipy, n_tdep = (2600, 900, 300) if thorough else (420, 160, 60)
+    vw = {"view": 7}  # reading a view of get_result() is one of the operations of a C04 history
     for _ in range(n_exact):
-        hs.append(S.gen_history(rng, "exact", 6))
+        hs.append(S.gen_history(rng, "exact", 6, weights=vw))
     for _ in range(n_scipy):
-        hs.append(S.gen_history(rng, "scipy", 5))
+        hs.append(S.gen_history(rng, "scipy", 5, weights=vw))
     for _ in range(n_tdep):
-        hs.append(S.gen_history(rng, "tdep", 5))
+        hs.append(S.gen_history(rng, "tdep", 5, weights=vw))
     # structured families (see the generators): override after a steady-state run, tiny gaps at large absolute time,
     # clear_results after an override with rates reading `time`
     m = 5 if thorough else 1
@@ -35,6 +36,8 @@ def histories(run: Run) -> list[dict]:
         (S.gen_steady_override, (("exact", 16), ("scipy", 24))),
         (S.gen_large_time, (("exact", 24), ("scipy", 12))),
         (S.gen_clear_after_override, (("exact", 24), ("tdep", 16))),
+        (S.gen_override_steady, (("exact", 20), ("scipy", 16))),
+        (S.gen_view_between, (("exact", 24), ("scipy", 12), ("tdep", 12))),
     ):
         for mode, n in plan:
             for _ in range(n * m):
@@ -55,7 +58,12 @@ def check(run: Run) -> None:
         "y'=c*time-k*y); ~15% of the time arrays are caller-owned float64 ndarrays, some handed to several calls (must not be "
         "modified); plus three structured families: steady-state run ; override of ONE variable ; continuation -- tiny gaps "
         "(2^-7..2^-9) after the time reached at absolute times 512..4096, also in shifted time after an override -- "
-        "simulate ; override ; clear_results ; simulate with rates reading time; non-trivial = at least two operations "
+        "simulate ; override ; clear_results ; simulate with rates reading time -- simulate(T) ; override ; steady-state run "
+        "[; override ; continuation] with T up to 400 (the row belongs at T + n*100 in absolute time) -- views of get_result() "
+        "(.variables / .fluxes / get_right_hand_side / get_producers / get_consumers / get_combined / get_args / raw variables, one "
+        "or two per result object) read between continuations recorded under different parameter values (operation `view`, "
+        "weight 7/103 in the random histories too): nothing the simulator holds and nothing the next segment runs with may "
+        "change; non-trivial = at least two operations "
         "of which one continues an earlier result, overrides a variable, clears, or is refused; distinct by content"
     )
     proofs_ok = run.check_proofs(AREA, PROPS)
